@@ -23,7 +23,8 @@ PerHz2PerN(spec, fg, c) == <<[i \in 1..Len(fg) |-> [j \in 1..Len(spec[i]) |-> Mu
 PerN2PerHz(spec, ng, c) == <<[i \in 1..Len(ng) |-> [j \in 1..Len(spec[i]) |-> Div(spec[i][j], c)]],
                              [i \in 1..Len(ng) |-> N2F(ng[i], c)]>>
 
-Grids == {<<R(1), R(2), R(4)>>, <<Frac(1, 2), R(3)>>, <<R(2), R(3), R(5)>>}
+Grids == {<<R(1), R(2), R(4)>>, <<Frac(1, 2), R(3)>>, <<R(2), R(3), R(5)>>,
+          <<R(4), R(2), R(1)>>, <<R(2), R(5), R(3)>>}         \* descending and non-monotonic grids are positive grids, too
 VARIABLES c, k, fg
 Init == c \in Cs /\ k \in Ks /\ fg \in Grids
 Next == UNCHANGED <<c, k, fg>>
@@ -41,7 +42,9 @@ DensityLaws ==
         d == PerHz2PerN(Spec1, fg, c)  e == PerN2PerHz(d[1], d[2], c)
     IN /\ b[1] = Spec1 /\ b[2] = fg                      \* inverse to each other
        /\ e[1] = Spec1 /\ e[2] = fg
-       /\ Increasing(a[2]) /\ Increasing(d[2])           \* the new grid is increasing again (reversed iff needed)
+       /\ (Increasing(fg) => Increasing(a[2]) /\ Increasing(d[2]))   \* an increasing grid stays increasing (reversed iff needed)
+       \* spectrum and grid stay paired: every returned (grid value, row) is the image of one input (grid value, row)
+       /\ \A i \in 1..Len(fg) : \E j \in 1..Len(fg) : a[2][i] = F2L(fg[j], c) /\ a[1][i] = [q \in 1..2 |-> Div(Mul(Spec1[j][q], Mul(fg[j], fg[j])), c)]
 Emit == PrintT(<<"CASE", ToJson([c |-> c, k |-> k, fg |-> fg, spec |-> Spec1,
           f2l |-> [i \in 1..Len(fg) |-> F2L(fg[i], c)], f2n |-> [i \in 1..Len(fg) |-> F2N(fg[i], c)],
           n2f |-> [i \in 1..Len(fg) |-> N2F(fg[i], c)], l2n |-> [i \in 1..Len(fg) |-> L2N(fg[i])],
